@@ -149,6 +149,16 @@ pub fn run(s: &mut Session, ctx: &Ctx) {
         let own = ops::mix_impl(sp, &a, &a, fr);
         s.check(chan_diff(&own, &a) == 0 && (own.to_rgba().alpha - a.to_rgba().alpha).abs() <= 1e-12, "self-mix-identity", &format!("Color::mix::<{}>", sp), || format!("mix {} a=a={} f={:?}", sp, show_color(&a), fr), || format!("got {}", show_color(&own)));
     }
+    // the same RGB with two different alphas: only alpha moves, and it moves linearly
+    for i in 0..(if ctx.thorough { 20_000 } else { 1_000 }) {
+        let a = gen::color8(&mut rng);
+        let q = a.to_rgba();
+        let a1 = *rng.pick(&[0.0, 0.2, 0.5, 1.0, 0.999]);
+        let a2 = *rng.pick(&[1.0, 0.0, 0.25, 0.6]);
+        let (x, y) = (Color::from_rgba(q.r, q.g, q.b, a1), Color::from_rgba(q.r, q.g, q.b, a2));
+        let fr = if i % 3 == 0 { 0.5 } else { rng.unit() };
+        clauses(s, MIX_SPACES[i % 6], &x, &y, fr, true);
+    }
     // random HSL-float pairs
     for i in 0..n / 2 {
         let a = gen::color_hsl(&mut rng);
